@@ -1,7 +1,7 @@
 #!/bin/bash
 # confirms a seeded breaking change in the seeder's scratch worktree: applies, builds, full suite passes, demo fails
 # with the change and passes without it.  usage: confirm_seed.sh <ID> <k>   (log: /tmp/seed_<ID>/out/<k>/confirm.log)
-id=$1; k=$2; root=/tmp/seed_$id; out=$root/out/$k; log=$out/confirm.log
+id=$1; k=$2; root=${SEED_ROOT:-/tmp/seed_$id}; out=$root/out/$k; log=$out/confirm.log
 cd $root || exit 2
 git checkout -q -- . ; : > $log
 git apply --check $out/patch.diff >> $log 2>&1 || { echo "RESULT apply-failed" >> $log; exit 1; }
